@@ -61,5 +61,3 @@ Definition init (mn mx : Z) : list piece := [{| pl := mn; pr := mx; pe := [] |}]
 Definition entries_at (x : Z) (items : list piece) : list N :=
   match find (fun p => contains p x) items with Some p => pe p | None => [] end.
 
-Definition show (items : list piece) := map (fun p => (pl p, pr p, pe p)) items.
-Eval vm_compute in show (indexing_range (indexing_range (indexing_range (init (-1000) 1000) 0 10 1%N) 5 20 2%N) (-1000) 7 3%N).
